@@ -400,14 +400,33 @@ def rule_dropabsent(E, R):
                 found_err = found_err or adm == {("Result::Err",)}
     R.check(found_err, rule, COMPUTE_FN, "absent mapped argument -> Err(Array(return_type))", where=h["span"])
     # element results: filter_map / filter_map_to
+    def value_variants(pc):
+        """LhsValue variants a site is restricted to, read from `is` literals on the value itself or on the
+        Result<LhsValue, _> that carries it (`Ok(LhsValue::Map(..))`)"""
+        best = None
+        for a, pol in sem.is_literals(pc):
+            if not pol:
+                continue
+            for i, v in enumerate(a.scruts):
+                if not (pVal(v) or pRes(v)):
+                    continue
+                vs = set()
+                for alt in a.alts:
+                    m_ = re.search(r"LhsValue::(\w+)", alt[i])
+                    if not m_:
+                        vs = None
+                        break
+                    vs.add("LhsValue::" + m_.group(1))
+                if vs is not None:
+                    best = vs if best is None else (best & vs)
+        return best
     for variant, meth in (("LhsValue::Map", "filter_map"), ("LhsValue::Array", "filter_map_to")):
         good = False
         bad = []
         for x in S.sites():
             if x.node.get("k") != "MethodCall" or x.in_closure:
                 continue
-            adm = sem.admitted_tuples(x.pc, [pVal], [UV])
-            if adm != {(variant,)}:
+            if value_variants(x.pc) != {variant}:
                 continue
             if x.node["m"] == meth:
                 good = True
